@@ -15,8 +15,15 @@ for f in sorted(glob.glob("/tmp/verify-all*.log") + glob.glob("/tmp/muttest-batc
             cur = m.group(1); verify.setdefault(cur, []); continue
         if cur and ("PASS" in line or "FAIL" in line):
             verify[cur].append(line.strip()[:160])
+known = {}
+for l in open(os.path.join(ROOT, "known_findings.jsonl")):
+    l = l.strip()
+    if l:
+        k = json.loads(l)
+        if k.get("status") == "known":
+            known.setdefault(k["property"], set()).add(k["signature"])
 checks = {}
-for f in sorted(glob.glob("/tmp/muttest-batch*.log")):
+for f in sorted(glob.glob("/tmp/muttest-batch*.log"), key=lambda x: int(re.findall(r"\d+", x)[-1])):
     cur = None
     for line in open(f, errors="replace"):
         m = re.match(r"=== (\S+) check", line)
@@ -25,8 +32,12 @@ for f in sorted(glob.glob("/tmp/muttest-batch*.log")):
         if not cur: continue
         if line.startswith(cur + " seed"):
             checks[cur]["summary"] = line.strip()
+        elif "RESULT build-failed" in line or "PATCH DOES NOT APPLY" in line:
+            del checks[cur]; cur = None
         elif line.strip().startswith("VIOLATION"):
-            checks[cur]["violations"].append(line.strip()[10:].split(" ::")[0][:200])
+            sig = line.strip()[10:].split(" ::")[0][:200]
+            if re.sub(r" x \d+$", "", sig) not in known.get(cur[:3], set()):
+                checks[cur]["violations"].append(sig)
         elif line.strip().startswith("INCONCLUSIVE"):
             checks[cur]["inconclusive"] += 1
 rows = []
